@@ -288,7 +288,7 @@ def ttm(t, U, dim=None, transpose=False):
     dim = list(dim)
     for i in range(len(dim)):
         if dim[i] < 0:
-            dim[i] += t.dim()
+            dim[i] = dim[i] + t.dim()
 
     cores = []
     Us = []
